@@ -241,6 +241,7 @@ func runC02(c *Ctx) {
 	c.Rule("C02-D7", "queued frames are not overwritten or stranded: get() of both queues resets the field to nil (it does not keep the backing array the consumer is still reading), and packets are handed to the current transport "+
 		"under transportMu (shared with C07-D8)", 4)
 	queueGetResets(c, "C02-D7")
+	queueOnlyTailAppendOrEmptied(c, "C02-D7")
 	sendUnderTransportLock(c, "C02-D7")
 
 	c.Rule("C02-D8", "nothing is put back: a function that takes packets out of a queue (pollQueue.get/poll, packetQueue.get/poll) adds none to that queue, itself, in its closures and private helpers, or through a module "+
